@@ -104,6 +104,11 @@ def generate(seed, tier, focus="frame"):
             if k >= 3 and len(d) == len(m):
                 e += " # spec=C10 accepted"
             lines.append("udpwire send %s # spec=C10 selfrelay1%s # spec=C07 source" % (hx(d), e))
+            if i % 6 == 5:
+                # a burst: the receive loop runs ahead of the parse loop; nothing may be lost or delivered twice
+                nb = g.pick([3, 8, 30])
+                lines.append("udpwire burst %d %d # spec=C10 eq ok n=%d each-once # spec=C09 eq ok n=%d each-once" % (nb, i, nb, nb))
+                g.count("udpwire_bursts")
             g.count("udpwire_kind_%d" % min(k, 3))
     else:
         for i in range(400 if tier == "quick" else 8000):
